@@ -53,10 +53,14 @@ where
 
         let mut steal = 0;
         if !self.buf.is_empty() {
-            steal = size - self.buf.len();
+            // Complete the sample left over from the previous read, as far as
+            // this read goes: it may well be shorter than the missing part.
+            steal = std::cmp::min(size - self.buf.len(), n);
             self.buf.extend(&buffer[0..steal]);
-            v.push(T::parse(&self.buf)?);
-            self.buf.clear();
+            if self.buf.len() == size {
+                v.push(T::parse(&self.buf)?);
+                self.buf.clear();
+            }
         }
         let remaining = (n - steal) % size;
         for pos in (steal..(n - remaining)).step_by(size) {
